@@ -29,6 +29,7 @@ go test -vet=off -count=1 ./... > /tmp/sv/$ID.suite.log 2>&1; S=$?
 FAILS=$(grep -E "^--- FAIL" /tmp/sv/$ID.suite.log | grep -v expandUpdateLeafAsKeys | wc -l)
 echo "== suite with patch exit=$S non-flaky-fails=$FAILS"
 cd /; git -C /repo worktree remove --force "$WT"
+if [ -n "${SKIP_CHECKS:-}" ]; then echo "SUMMARY $ID clean=$C build=$B patched=$P suitefails=$FAILS"; exit 0; fi
 echo "== checks on /repo with patch"
 git -C /repo apply "$SD/patch.diff" || { echo "PATCH DOES NOT APPLY to /repo"; exit 3; }
 for p in $PROPS; do
